@@ -81,6 +81,39 @@ func factsC10() {
 				return false
 			})
 		}
+		// the transformer is installed only for boundary events with cancelActivity: the assignment to
+		// actionTransformer sits in an `if` whose condition is boundaryEvent.CancelActivity()
+		only := ""
+		if fd := funcDecl(act, "", "newHarness"); fd != nil && fd.Body != nil {
+			ast.Inspect(fd.Body, func(n ast.Node) bool {
+				is, ok := n.(*ast.IfStmt)
+				if !ok {
+					return true
+				}
+				assigns := false
+				ast.Inspect(is.Body, func(m ast.Node) bool {
+					if a, ok := m.(*ast.AssignStmt); ok && len(a.Lhs) == 1 && exprString(a.Lhs[0]) == "actionTransformer" {
+						assigns = true
+					}
+					return true
+				})
+				if assigns {
+					only = boolLit(strings.HasSuffix(exprString(is.Cond), "CancelActivity()") && is.Else == nil)
+				}
+				return true
+			})
+			if only == "" {
+				// assigned, but not under any if
+				ast.Inspect(fd.Body, func(m ast.Node) bool {
+					if a, ok := m.(*ast.AssignStmt); ok && len(a.Lhs) == 1 && exprString(a.Lhs[0]) == "actionTransformer" {
+						only = "false"
+					}
+					return true
+				})
+			}
+		}
+		add("C10", "cancelOnlyIfInterrupting", "Bool", only,
+			"activity.go newHarness: the cancelling action transformer is installed only under `if boundaryEvent.CancelActivity()`")
 		add("C10", "cancellationOnce", "Bool", once,
 			"activity.go newHarness: the interrupting action transformer calls activity.Cancel() through node.cancellation.Do (sync.Once)")
 		add("C10", "listenersShareWaitGroup", "Bool", share,
